@@ -11,8 +11,8 @@
    scheduler; it is measured on real clusters (scenario family 8), not proved. *)
 From Coq Require Import List NArith.
 From stdpp Require Import gmap.
-From RaftModel Require Import Base Config Node.
-From RaftProofs Require Import CatchupProofs AppendProofs.
+From RaftModel Require Import Base Config Node Replicate.
+From RaftProofs Require Import CatchupProofs AppendProofs ReplicateProofs.
 Open Scope N_scope.
 
 Theorem C12_snapshot_then_append_accepted : forall P s2 rt tr1 q s' r tr fs' a,
@@ -32,6 +32,37 @@ Theorem C12_state_after_install : forall P s2 rt tr1 q s' r tr fs',
   (v_lastLogIdx s' = iq_lastIdx q -> v_lastLogTerm s' = iq_lastTerm q).
 Proof. exact is_body_post. Qed.
 Print Assumptions C12_state_after_install.
+
+
+(* ---- the leader side (replication.go replicateTo), Model/Replicate.v: catch-up makes progress
+   rather than repeating the same transfer.  A rejected AppendEntries (not a stale-term answer)
+   strictly lowers nextIndex while it is above 1 - and to at most the follower's last index + 1 -
+   so the same request is never sent again; at 1 the previous entry is (0,0), which the follower's
+   previous-entry check always accepts (C04).  An accepted AppendEntries that carried entries raises
+   nextIndex to just past what was sent and reports exactly that index to the commitment; a
+   successful InstallSnapshot moves nextIndex past the snapshot. *)
+Theorem C12_rejection_lowers_next_index : forall term rs snd t lastLog noRetry last pi pt es c,
+  snd = SendAE pi pt es c -> t <= term -> 1 < r_next rs ->
+  let rs' := fst (round_step term rs snd (FAppend t lastLog false noRetry) last) in
+  1 <= r_next rs' /\ r_next rs' < r_next rs /\ r_next rs' <= lastLog + 1.
+Proof. exact reject_lowers_next. Qed.
+Print Assumptions C12_rejection_lowers_next_index.
+
+Theorem C12_success_raises_next_index : forall P s rs last t lastLog noRetry pi pt es c,
+  keys_ok (d_log s) -> setup_send P s (r_next rs) last = SendAE pi pt es c -> es <> [] -> t <= v_term s ->
+  let rs' := fst (round_step (v_term s) rs (SendAE pi pt es c) (FAppend t lastLog true noRetry) last) in
+  r_next rs < r_next rs' /\ r_next rs' = r_next rs + N.of_nat (length es) /\ r_match rs' = N.max (r_match rs) (r_next rs' - 1) /\ r_failures rs' = 0.
+Proof. exact success_raises_next. Qed.
+Print Assumptions C12_success_raises_next_index.
+
+Theorem C12_snapshot_moves_next_index : forall term rs idx st t last,
+  t <= term -> r_next (fst (round_step term rs (SendSnap idx st) (FSnap t true) last)) = idx + 1.
+Proof. exact snapshot_moves_next. Qed.
+
+Theorem C12_request_shape : forall P s next last pi pt es c,
+  keys_ok (d_log s) -> setup_send P s next last = SendAE pi pt es c -> es <> [] ->
+  (N.of_nat (length es) <= p_maxappend P \/ p_maxappend P = 0) /\ last_idx_of es <= last.
+Proof. exact send_shape. Qed.
 
 (* Non-vacuity, and the F3-i scenario itself: follower log cfg@1, (2,t2) stale; snapshot (2,t3);
    TrailingLogs 0: installed, then AppendEntries prev=(2,t3) with entry 3 succeeds. *)
